@@ -369,10 +369,10 @@ Section Monitors.
           forallb (fun sx => fle x (snd sx)) acc_vals
         else
           existsb (fun sx =>
-            let i := id_of_seed (fst sx) in
-            let vs := vals_of_id i in
-            N.eqb (val_of_seed (fst sx)) v && N.eqb (N.of_nat (length vs)) (ro_ss o) &&
-            feq (fmean vs) x) acc_vals
+            if N.eqb (val_of_seed (fst sx)) v then
+              let vs := vals_of_id (id_of_seed (fst sx)) in
+              if N.eqb (N.of_nat (length vs)) (ro_ss o) then feq (fmean vs) x else false
+            else false) acc_vals
     | Some (ORErr 0 _) =>
         (* NoIndividuals: with sample size 1 only if nothing was accepted *)
         if N.eqb (ro_ss o) 1 then match acc_vals with [] => true | _ => false end else true
@@ -425,7 +425,7 @@ Section Monitors.
                 let i := id_of_seed seed in
                 let accs' := (accs ++ [(i, x)])%list in
                 let vs := map snd (filter (fun a => N.eqb (fst a) i) accs') in
-                let nids := length (nodup N.eq_dec (map fst accs')) in
+                let nids := length accs' in   (* >= number of individuals: conservative *)
                 let h := N.eqb (N.of_nat (length vs)) (ro_ss o) && fle (fmean vs) (of_bits tb) &&
                          Nat.leb nids max_pop_size in
                 walk_target t accs' h
